@@ -1,10 +1,221 @@
-"""Counterexample search and replay on the real code (DESIGN 2.7) — filled in below."""
+"""Counterexample search and replay on the real code (DESIGN 2.7).
+
+* Kani failure: re-run the harness with `--concrete-playback=print`, parse the byte vectors Kani
+  prints (one per `kani::any()` of a primitive, in call order, little-endian) and the values it
+  shows in comments; then replay them NATIVELY: the same harness text is compiled as ordinary
+  Rust into the overlay copy (cfg `verif_replay`, `kani::` attributes stripped, `kani::any()`
+  served from the recorded vectors by a 60-line shim, stubs gone so the real functions run) and
+  executed by a `#[test]` entry.  A panic of the harness assertion = the violation reproduced on
+  the real code.
+* Verus failure: if the sidecar names Kani twins for the function, they are run on the working
+  tree; a failing twin yields the input as above.  Otherwise: no-failing-input-found.
+"""
+import json
+import os
+import re
+import shutil
+import subprocess
+
+import kanirun
+from vx import VERIF, Undecided
+
+REPO = os.environ.get("VERIF_REPO", "/repo")
+
+SHIM = r'''
+#[cfg(verif_replay)]
+#[allow(unused, dead_code, missing_docs)]
+pub(crate) mod verif_replay_kani {
+    //! serves `kani::any()` from the byte vectors of a Kani counterexample
+    use std::cell::RefCell;
+    use std::collections::VecDeque;
+    thread_local! { pub static VALS: RefCell<VecDeque<Vec<u8>>> = RefCell::new(VecDeque::new()); }
+    fn next(n: usize) -> Vec<u8> {
+        let mut v = VALS.with(|q| q.borrow_mut().pop_front()).unwrap_or_default();
+        v.resize(n, 0);
+        v
+    }
+    pub trait Arb: Sized { fn arb() -> Self; }
+    macro_rules! prim { ($($t:ty),*) => { $( impl Arb for $t { fn arb() -> Self { let v = next(std::mem::size_of::<$t>()); let mut a = [0u8; std::mem::size_of::<$t>()]; a.copy_from_slice(&v); <$t>::from_le_bytes(a) } } )* } }
+    prim!(u8, u16, u32, u64, u128, usize, i8, i16, i32, i64, i128, isize, f32, f64);
+    impl Arb for bool { fn arb() -> Self { next(1)[0] != 0 } }
+    impl Arb for char { fn arb() -> Self { let v = next(4); char::from_u32(u32::from_le_bytes([v[0], v[1], v[2], v[3]])).unwrap_or('\u{0}') } }
+    impl Arb for () { fn arb() -> Self {} }
+    impl<T: Arb, const N: usize> Arb for [T; N] { fn arb() -> Self { std::array::from_fn(|_| T::arb()) } }
+    impl<T: Arb> Arb for Option<T> { fn arb() -> Self { if bool::arb() { Some(T::arb()) } else { None } } }
+    impl<A: Arb, B: Arb> Arb for (A, B) { fn arb() -> Self { let a = A::arb(); let b = B::arb(); (a, b) } }
+    pub fn any<T: Arb>() -> T { T::arb() }
+    pub fn any_where<T: Arb, F: FnOnce(&T) -> bool>(f: F) -> T { let v = T::arb(); assume(f(&v)); v }
+    pub fn assume(c: bool) { if !c { println!("VERIF_REPLAY_OUTCOME assumption-violated"); std::process::exit(0); } }
+    pub fn cover(_c: bool) {}
+}
+'''
 
 
-def find_input_for(prop, result, scratch):
+def parse_playback(raw):
+    """-> list of dict(bytes=[..], shown=str)"""
+    vals = []
+    m = re.search(r"let concrete_vals: Vec<Vec<u8>> = vec!\[(.*?)\];", raw, re.S)
+    if not m:
+        return None
+    shown = None
+    for ln in m.group(1).split("\n"):
+        ln = ln.strip()
+        if ln.startswith("//"):
+            shown = ln[2:].strip()
+        mm = re.match(r"vec!\[([0-9, ]*)\],?", ln)
+        if mm:
+            b = [int(x) for x in mm.group(1).split(",") if x.strip()]
+            vals.append({"bytes": b, "shown": shown})
+            shown = None
+    return vals
+
+
+def kani_counterexample(prop, harness_names, scratch, outdir):
+    """run the named harnesses with concrete playback on the working tree; -> (harness, group, vals, raw) of
+    the first failing one, or None"""
+    rs, infos = kanirun.run_for("ALL", "thorough", os.path.join(scratch, "cex"), outdir, only_harnesses=set(harness_names), playback=True)
+    raw = "\n".join(i.get("raw", "") for i in infos)
+    for r in rs:
+        if r.status == "false":
+            # isolate this harness's block
+            name = r.meta["harness"].split("::")[-1]
+            blocks = re.split(r"(?m)^(?:Thread \d+: )?Checking harness ", raw)
+            blk = next((b for b in blocks if b.startswith(r.meta["harness"]) or ("::" + name + "...") in b.split("\n")[0]), raw)
+            vals = parse_playback(blk) or parse_playback(raw)
+            return r, vals, blk[-4000:]
     return None
 
 
+def native_replay(group_name, harness, vals, scratch):
+    """-> dict(reproduced=bool|None, output=str)"""
+    groups = [g for g in kanirun.load_groups() if g["group"] == group_name]
+    if not groups:
+        return {"reproduced": None, "output": f"group {group_name} not found"}
+    g = groups[0]
+    crate = g.get("crate", "tera")
+    root = os.path.join(scratch, "replay-src")
+    kanirun.copy_repo(root)
+    shutil.copy(os.path.join(REPO, "Cargo.lock"), os.path.join(root, "Cargo.lock"))
+    body = open(os.path.join(kanirun.KANI_DIR, g["module"])).read()
+    body = "\n".join(ln for ln in body.split("\n") if not re.match(r"^\s*#\[kani::[^\]]*\]\s*$", ln) and not re.match(r"^\s*#\[kani::.*\)\]\s*$", ln))
+    names = [h["name"] for h in g.get("harness", [])]
+    dispatch = "\n".join(f'            "{n}" => {{ {n}(); true }}' for n in names if re.search(r"\bfn\s+" + re.escape(n) + r"\s*\(", body) or re.search(r"\b" + re.escape(n) + r"\b", body))
+    mod = (
+        f"\n#[cfg(verif_replay)]\n#[allow(unused, clippy::all)]\npub(crate) mod verif_kani_{g['group']} {{\n"
+        f"    use crate::verif_replay_kani as kani;\n{body}\n"
+        f"    pub(crate) fn __verif_replay(name: &str) -> bool {{\n        match name {{\n{dispatch}\n            _ => false,\n        }}\n    }}\n}}\n"
+    )
+    with open(os.path.join(root, g["append_to"]), "a") as f:
+        f.write(mod)
+    modpath = kanirun.mod_path_of(g)
+    libpath = os.path.join(root, g["append_to"].split("/src/")[0], "src", "lib.rs")
+    entry = SHIM + f'''
+#[cfg(verif_replay)]
+#[cfg(test)]
+mod verif_replay_entry_mod {{
+    #[test]
+    fn verif_replay_entry() {{
+        let name = std::env::var("VERIF_REPLAY_HARNESS").unwrap();
+        let vals: Vec<Vec<u8>> = std::env::var("VERIF_REPLAY_VALS").unwrap().split(';').filter(|s| !s.is_empty())
+            .map(|s| s.split(',').filter(|x| !x.is_empty()).map(|x| x.parse::<u8>().unwrap()).collect()).collect();
+        crate::verif_replay_kani::VALS.with(|q| *q.borrow_mut() = vals.into_iter().collect());
+        let r = std::panic::catch_unwind(|| crate::{modpath}::__verif_replay(&name));
+        match r {{
+            Ok(true) => println!("VERIF_REPLAY_OUTCOME no-panic"),
+            Ok(false) => println!("VERIF_REPLAY_OUTCOME unknown-harness"),
+            Err(e) => {{
+                let msg = e.downcast_ref::<String>().cloned().or_else(|| e.downcast_ref::<&str>().map(|s| s.to_string())).unwrap_or_default();
+                println!("VERIF_REPLAY_OUTCOME panicked: {{msg}}");
+            }}
+        }}
+    }}
+}}
+'''
+    with open(libpath, "a") as f:
+        f.write(entry)
+    env = dict(os.environ)
+    env["CARGO_NET_OFFLINE"] = "true"
+    env["CARGO_TARGET_DIR"] = os.path.join(VERIF, "build", "replay-target")
+    env["RUSTFLAGS"] = "--cfg verif_replay -A unexpected_cfgs"
+    env["VERIF_REPLAY_HARNESS"] = harness
+    env["VERIF_REPLAY_VALS"] = ";".join(",".join(str(b) for b in v["bytes"]) for v in (vals or []))
+    cmd = ["cargo", "test", "--offline", "-p", crate, "--lib"]
+    if g.get("features"):
+        cmd += ["--features", g["features"]]
+    cmd += ["verif_replay_entry", "--", "--nocapture", "--test-threads", "1"]
+    try:
+        p = subprocess.run(cmd, cwd=root, env=env, capture_output=True, timeout=1200)
+    except subprocess.TimeoutExpired:
+        return {"reproduced": None, "output": "native replay timed out"}
+    out = p.stdout.decode(errors="replace") + p.stderr.decode(errors="replace")
+    m = re.search(r"VERIF_REPLAY_OUTCOME ((?:panicked|no-panic|unknown-harness|assumption-violated)[^\n]*)", out)
+    if not m:
+        return {"reproduced": None, "output": "native replay build/run failed: " + out[-1500:]}
+    oc = m.group(1).strip()
+    return {"reproduced": oc.startswith("panicked"), "outcome": oc, "output": out[-800:], "cmd": "RUSTFLAGS='--cfg verif_replay' " + " ".join(cmd)}
+
+
+def twins_of(r):
+    """Kani twin harness names for a Verus obligation (sidecar key `twin`)"""
+    import glob
+    import tomllib
+
+    for p in glob.glob(os.path.join(VERIF, "contracts", "*.toml")):
+        with open(p, "rb") as f:
+            sc = tomllib.load(f)
+        if "unit" not in sc:
+            continue
+        for f_ in sc.get("fn", []) + sc.get("arm", []):
+            ob = f"{sc['unit']}/{f_.get('ob', f_.get('name', f_['path'].split('::')[-1]))}"
+            if ob == r.ob and f_.get("twin"):
+                return f_["twin"] if isinstance(f_["twin"], list) else [f_["twin"]]
+    return []
+
+
+def find_input_for(prop, r, scratch):
+    outdir = os.path.join(VERIF, "out", prop)
+    os.makedirs(outdir, exist_ok=True)
+    if r.engine == "K":
+        names = [r.meta["harness"].split("::")[-1]]
+    elif r.engine == "V":
+        names = twins_of(r)
+        if not names:
+            return None
+    else:
+        return None
+    got = kani_counterexample(prop, names, scratch, outdir)
+    if not got:
+        return {"kani_twins_run": names, "failing_input": None}
+    kr, vals, raw = got
+    hname = kr.meta["harness"].split("::")[-1]
+    group = None
+    for g in kanirun.load_groups():
+        if any(h["name"] == hname for h in g.get("harness", [])) and kanirun.mod_path_of(g) + "::" + hname == kr.meta["harness"]:
+            group = g["group"]
+    extra = {"kani_harness": kr.meta["harness"], "kani_failed_checks": kr.detail[:1500], "failing_input": vals, "kani_output_tail": raw[-1500:], "replay_group": group}
+    if vals is not None and group:
+        extra["replayed_on_real_code"] = native_replay(group, hname, vals, scratch)
+    return extra
+
+
 def run(path):
-    print("replay not available for", path)
-    return 2
+    with open(path) as f:
+        doc = json.load(f)
+    print(f"replay of {doc.get('obligation')} ({doc.get('engine')})")
+    if doc.get("failing_input") is None or not doc.get("replay_group"):
+        print("no failing input recorded for this obligation (verifier output follows)")
+        print((doc.get("verifier_output") or "")[:3000])
+        return 2
+    scratch = os.environ.get("VERIF_SCRATCH") or f"/var/tmp/verif-replay-{os.getpid()}"
+    os.makedirs(scratch, exist_ok=True)
+    try:
+        res = native_replay(doc["replay_group"], doc["kani_harness"].split("::")[-1], doc["failing_input"], scratch)
+    finally:
+        shutil.rmtree(scratch, ignore_errors=True)
+    for v in doc["failing_input"]:
+        print("  input:", v.get("shown"), v["bytes"])
+    print("outcome on the current working tree:", res.get("outcome") or res.get("output"))
+    if res.get("reproduced"):
+        print(f"VIOLATION property={doc.get('property')} replay={path}")
+        return 1
+    return 0 if res.get("reproduced") is False else 2
